@@ -150,8 +150,7 @@ BOUND = {t: '55 seed sets (all 1- and 2-subsets of 10 molecules incl. a radical 
             'aryl C-C, aryl C-O%s scission), SMARTS form; iso (sixth wave): 4 isotopologue seed '
             'pairs (13C-methane, 13C-ethane, D-methane, 18O-methanol with the unlabelled '
             'molecule) in both seed orders x rule sets from {C-H, C-C scission} x {SMARTS, RING '
-            'text} x {strings, objects} x {text, Mol seeds}; 6 of the 8 ordered pairs are known '
-            'finding K3'
+            'text} x {strings, objects} x {text, Mol seeds}'
             % (KMAX[t], KMAX[t], KMAX[t], KMAX[t], len(W4.session_alphabet(t)),
                ', '.join(W4.SESSION_MOLS[t]), KMAX[t], KMAX[t], KMAX[t], KMAX[t],
                len(W5.OPEN_RULES[t]), ', aryl C-H' if 'ar:cH' in W5.OPEN_RULES[t] else '')
